@@ -18,9 +18,9 @@ __CPROVER_assigns()
 __CPROVER_ensures((__CPROVER_return_value == sm->m_active_state_ids[g_cur_region]) == (State == g_wit[g_cur_region]))
 ;
 void accept_state(type_t State, fsm_t* sm)
-__CPROVER_requires(0 <= g_cur_region && g_cur_region < nr_regions && State == g_wit[g_cur_region])   /*@ob C03.visit-reports-exactly-the-active-state-of-each-region */
+__CPROVER_requires(0 <= g_cur_region && g_cur_region < nr_regions && State == g_wit[g_cur_region])   /*@ob C03,C17,C07.visit-reports-exactly-the-active-state-of-each-region */
 __CPROVER_requires(g_acc[g_cur_region] == 0)                                                         /*@ob C03.every-active-state-visited-at-most-once */
-__CPROVER_requires(sm->m_running)                                                                    /*@ob C03.nothing-visited-while-the-machine-is-not-running */
+__CPROVER_requires(sm->m_running)                                                                    /*@ob C03,C07,C17.nothing-visited-while-the-machine-is-not-running */
 __CPROVER_assigns(g_acc[g_cur_region])
 __CPROVER_ensures(g_acc[g_cur_region] == 1)
 ;
@@ -39,7 +39,7 @@ __CPROVER_requires(REGIONS_OK && __CPROVER_is_fresh(sm, sizeof(*sm)))
 __CPROVER_requires(g_acc[0] == 0 && g_acc[1] == 0 && g_acc[2] == 0 && g_acc[3] == 0 && g_acc[4] == 0 && g_acc[5] == 0 && g_acc[6] == 0 && g_acc[7] == 0)
 __CPROVER_requires(NEEDS_TRAVERSAL || !IN_LIST(g_k))             /* needs_traversal == list not empty */
 __CPROVER_assigns(__CPROVER_object_whole(g_acc), g_cur_region)                                                               /*@ob C03.introspection-changes-nothing */
-__CPROVER_ensures(g_acc[g_k] == ((sm->m_running && IN_LIST(g_k)) ? 1 : 0))                                                   /*@ob C03.every-regions-active-state-visited-exactly-once-iff-running */
+__CPROVER_ensures(g_acc[g_k] == ((sm->m_running && IN_LIST(g_k)) ? 1 : 0))                                                   /*@ob C03,C17,C05.every-regions-active-state-visited-exactly-once-iff-running */
 ;
 /* accept<Mode,State>: visitor called iff State is in states_to_visit; recursion iff it is a submachine to traverse */
 extern const _Bool g_in_states_to_visit, g_in_submachines_to_traverse; extern int g_vcalls, g_recursed;
@@ -91,7 +91,7 @@ __CPROVER_ensures((__CPROVER_return_value != 0) == (VIS_SETS ? (g_visit_hit != 0
 const uint16_t* get_active_state_ids(const fsm_t* self)
 __CPROVER_requires(__CPROVER_is_fresh(self, sizeof(*self)))
 __CPROVER_assigns()                                                                                        /*@ob C03.introspection-assigns-nothing */
-__CPROVER_ensures(__CPROVER_return_value == self->m_active_state_ids)                                      /*@ob C03.get_active_state_ids-is-the-active-configuration */
+__CPROVER_ensures(__CPROVER_return_value == self->m_active_state_ids)                                      /*@ob C03,C19.get_active_state_ids-is-the-active-configuration */
 ;
 
 /* ---- all-states traversal (state_visitor_impl<..., AllStates=true>::visit): every state of states_to_traverse accepted once, list order ---- */
